@@ -118,12 +118,35 @@ fn run_main(r: &mut Runner, rng: &mut Rng, len: usize, cfg: &CrashCfg, fixed: Op
     let mut os: Vec<OsOp> = Vec::new();
     let mut calls: Vec<CallInfo> = Vec::new();
     let mut seen_events = 0usize;
+    // the image rebuilt from the hook trace through the BufWriter model, kept in step with the
+    // calls and compared with what the directory REALLY holds: every crash image below is derived
+    // from the trace, so a write, seek, set_len or flush that the hooks do not see must show here
+    let mut trace_img: Img = Img::new();
+    let mut applied_os = 0usize;
+    let mut ncall = 0usize;
     let mut step = |r: &mut Runner, op: Op, bm: &mut BufModel, os: &mut Vec<OsOp>, calls: &mut Vec<CallInfo>| {
         let oc = r.apply(&op);
         for e in &r.real.all_events[seen_events..] {
             bm.step(e, os);
         }
         seen_events = r.real.all_events.len();
+        while applied_os < os.len() {
+            apply_os(&mut trace_img, &os[applied_os], None);
+            applied_os += 1;
+        }
+        ncall += 1;
+        if !r.dead && r.real.log.is_some() && (trace_img.len() <= 6 || ncall % 8 == 0) {
+            let disk: Vec<(u64, Vec<u8>)> = read_dir_image(&r.real.dir);
+            let from_trace: Vec<(u64, Vec<u8>)> = trace_img.iter().map(|(f, c)| (*f, c.clone())).collect();
+            r.stats.inc("crash.dir_vs_trace_compared");
+            if disk != from_trace {
+                let what = disk.iter().zip(from_trace.iter()).find(|(a, b)| a != b).map(|(a, b)| {
+                    let at = a.1.iter().zip(b.1.iter()).position(|(x, y)| x != y).unwrap_or(a.1.len().min(b.1.len()));
+                    format!("file {} (disk {} bytes) vs file {} (trace {} bytes), first difference at offset {}", a.0, a.1.len(), b.0, b.1.len(), at)
+                }).unwrap_or_else(|| format!("{} files on disk, {} in the trace image", disk.len(), from_trace.len()));
+                r.violate("*", format!("after `{}` the directory differs from the image rebuilt from the hook trace (a write, seek, set_len or flush the hooks do not see): {}", { let l = op.line(); l[..l.len().min(60)].to_string() }, what));
+            }
+        }
         if !matches!(op, Op::State | Op::Dir | Op::Range { .. }) {
             let promise = promise_of(&op, &oc, r.real.pol);
             calls.push(CallInfo { os_end: os.len(), spec: r.spec.clone(), flushed: bm.is_empty(), promise, op });
@@ -168,7 +191,9 @@ pub fn case_crash(scratch: &Path, meta: usize, id: &str, seed: u64, len: usize, 
         let mut main = Vec::new();
         for (side, op) in &case.ops {
             match op {
-                Op::Crash { k, cut, instant, .. } => {
+                Op::Crash { k, cut, instant, undone, .. } => {
+                    // power-loss points carry the number of undone unlinks in the `cut` slot
+                    let cut = if instant.is_some() { undone } else { cut };
                     fixed_points.push((*k, *cut, Vec::new()));
                     if let Some(i) = instant {
                         fixed_instants.insert((*k, *cut), *i);
@@ -245,6 +270,30 @@ pub fn case_crash(scratch: &Path, meta: usize, id: &str, seed: u64, len: usize, 
             power.push((k, k, 0));
         }
     }
+    // the same instants with the last 1 / some / all of the pending unlinks undone (directory
+    // operations persist in order, an unlink is durable only after the next fsync of the directory)
+    let mut more: Vec<(usize, usize, usize)> = Vec::new();
+    for (k, i, _) in &power {
+        let pend = pending_unlinks(&os, *i);
+        if pend > 0 {
+            more.push((*k, *i, 1));
+            more.push((*k, *i, pend));
+            if pend > 2 {
+                more.push((*k, *i, 1 + rng.below(pend as u64 - 1) as usize));
+            }
+        }
+    }
+    // instants right after each unlink and right after the fsync(file) that follows a GC pass
+    for (i, op) in os.iter().enumerate() {
+        if matches!(op, OsOp::SyncFile(_)) {
+            let pend = pending_unlinks(&os, i + 1);
+            if pend > 0 && rng.chance(1, 2) {
+                more.push((i + 1, i + 1, pend));
+                more.push((i + 1, i + 1, 1 + rng.below(pend as u64) as usize));
+            }
+        }
+    }
+    power.extend(more);
     power.sort();
     power.dedup();
     chosen.sort();
@@ -282,7 +331,7 @@ pub fn case_crash(scratch: &Path, meta: usize, id: &str, seed: u64, len: usize, 
         })
         .collect();
     if replay.is_none() || fixed_conts.is_empty() {
-        pts.extend(power.iter().map(|(kept, instant, _)| (*kept, 0usize, 3u8, *instant)));
+        pts.extend(power.iter().map(|(kept, instant, undone)| (*kept, *undone, 3u8, *instant)));
     }
     pts.sort();
     pts.dedup();
@@ -292,12 +341,17 @@ pub fn case_crash(scratch: &Path, meta: usize, id: &str, seed: u64, len: usize, 
             applied += 1;
         }
         let mut img = base.clone();
+        let undone = if class == 3 { cut } else { 0 };
+        let cut = if class == 3 { 0 } else { cut };
         if cut > 0 {
             apply_os(&mut img, &os[k], Some(cut));
         }
         let (mut pdrop, mut pzero) = (Vec::new(), Vec::new());
         if class == 3 {
-            let (pimg, d, z) = power_loss_image(&os, instant);
+            let (pimg, d, z) = power_loss_image(&os, instant, undone);
+            if undone > 0 {
+                r.stats.inc("crash.power_loss.undone_unlinks");
+            }
             img = pimg;
             pdrop = d;
             pzero = z;
@@ -309,7 +363,7 @@ pub fn case_crash(scratch: &Path, meta: usize, id: &str, seed: u64, len: usize, 
         write_image(&side.real.dir, &img_vec);
         let (oc, evs) = side.real.open(Pol::AlwaysFlush, None);
         // the `crash` line is a main-line op for the model driver
-        let crash_op = Op::Crash { k, cut, pol: Pol::AlwaysFlush, instant: if class == 3 { Some(instant) } else { None }, drop: pdrop.clone(), zero: pzero.clone(), fail: None };
+        let crash_op = Op::Crash { k, cut, pol: Pol::AlwaysFlush, instant: if class == 3 { Some(instant) } else { None }, drop: pdrop.clone(), zero: pzero.clone(), fail: None, undone };
         r.ops.push((false, crash_op.clone()));
         r.annot.push(format!("{} order={}", crash_op.line(), gc_order(&evs)));
         r.out.push(dir_line(&img_vec));
@@ -404,6 +458,16 @@ pub fn case_crash(scratch: &Path, meta: usize, id: &str, seed: u64, len: usize, 
                             if present[first_true..].iter().any(|p| !*p) {
                                 r.violate("C12", format!("{}: batch appended by call {} (`{}`) recovered with a hole or a missing tail: {:?}", ctx, j, c.op.line(), present));
                             }
+                            // a missing HEAD is legitimate only where a truncation removed it: a head
+                            // record that the history still retains after every started call must be
+                            // there whenever a later record of its batch is
+                            if first_true > 0 && first_true < present.len() {
+                                if let Some(sq) = spec_at(hi).queues.get(q) {
+                                    if batch[..first_true].iter().any(|b| sq.recs.contains(b)) {
+                                        r.violate("C12", format!("{}: batch appended by call {} (`{}`) recovered without its head although no truncation removed it: {:?}", ctx, j, c.op.line(), present));
+                                    }
+                                }
+                            }
                             r.stats.inc("c12.batches_checked");
                         }
                     }
@@ -421,7 +485,7 @@ pub fn case_crash(scratch: &Path, meta: usize, id: &str, seed: u64, len: usize, 
                 }
                 // continuation: the recovered log must be fully usable
                 if let Some(j) = matched {
-                    let fixed_cont = fixed_conts.get(&(k, cut)).cloned();
+                    let fixed_cont = fixed_conts.get(&(k, if class == 3 { undone } else { cut })).cloned();
                     let do_cont = match &fixed_cont {
                         Some(ops) => !ops.is_empty(),
                         None => replay.is_some() || rng.chance(1, cfg.cont_every),
@@ -475,7 +539,7 @@ pub fn case_crash(scratch: &Path, meta: usize, id: &str, seed: u64, len: usize, 
                             side.real.log = None;
                             let plan = mrecordlog::verif_hooks::FaultPlan { fail_at: n, forever: rng.chance(1, 2), kind: crate::real::IO_KINDS[(n as usize + k) % crate::real::IO_KINDS.len()].1 };
                             let (foc, fevs) = side.real.open(Pol::AlwaysFlush, Some(plan));
-                            let fop = Op::Crash { k, cut, pol: Pol::AlwaysFlush, instant: if class == 3 { Some(instant) } else { None }, drop: pdrop.clone(), zero: pzero.clone(), fail: Some(n) };
+                            let fop = Op::Crash { k, cut, pol: Pol::AlwaysFlush, instant: if class == 3 { Some(instant) } else { None }, drop: pdrop.clone(), zero: pzero.clone(), fail: Some(n), undone };
                             r.ops.push((false, fop.clone()));
                             r.annot.push(format!("{} order={}", fop.line(), gc_order(&fevs)));
                             r.out.push(dir_line(&img_vec));
